@@ -155,6 +155,12 @@ func (s *simulator) handle(raw net.Conn, cfg *tls.Config, authority string) {
 	s.mu.Lock()
 	s.log = append(s.log, simRequest{Host: authority, Raw: text})
 	rt, ok := s.routes[authority+" "+target]
+	if !ok {
+		/* fallback: a route registered for the path alone, whatever the query */
+		if q := strings.IndexByte(target, '?'); q >= 0 {
+			rt, ok = s.routes[authority+" "+target[:q]+"?*"]
+		}
+	}
 	s.mu.Unlock()
 	if !ok {
 		conn.Write([]byte("HTTP/1.0 404 Not Found\r\nContent-Type: text/plain\r\n\r\nno route"))
@@ -203,7 +209,7 @@ func (s *simulator) handle(raw net.Conn, cfg *tls.Config, authority string) {
 }
 
 func simStallTime() time.Duration {
-	return 20 * time.Second
+	return 8 * time.Second
 }
 
 func (s *simulator) setRoutes(routes map[string]route) {
@@ -222,8 +228,15 @@ func (s *simulator) takeLog() []simRequest {
 	return out
 }
 
+/* connections to the plaintext canary that did not start a TLS handshake (0x16) */
 func (s *simulator) canaryHits() int {
 	s.mu.Lock()
 	defer s.mu.Unlock()
-	return len(s.canaryLog)
+	n := 0
+	for _, payload := range s.canaryLog {
+		if len(payload) == 0 || payload[0] != 0x16 {
+			n++
+		}
+	}
+	return n
 }
